@@ -64,8 +64,8 @@ pub fn check_batch(b: &LpBatch, probe: &Probe) -> Verdict {
 
 const ALPHA: &[&str] = &["abc", "x1", "xy", "a b", "  xy  ", "Abc", "é1", "", "  ", "TODO: x y", "\u{a0}abc\u{3000}", "\u{2003}", "--"];
 
-const EDGE_BLANK: &[&str] = &["^- ", " = "];
-const ALPHA_EDGE: &[&str] = &["- a", "-a", "a = b", "a=b", "  - a = b  ", "", "-", "- "];
+const EDGE_BLANK: &[&str] = &["^- ", " = ", "^a.b$"];
+const ALPHA_EDGE: &[&str] = &["- a", "-a", "a = b", "a=b", "  - a = b  ", "", "-", "- ", "a\rb", "a-b", "ab"];
 
 pub fn enumerated(max_len: usize, batch: usize) -> Vec<LpBatch> {
     let mut specs = vec![];
@@ -106,7 +106,7 @@ pub fn random_batch() -> BoxedStrategy<LpBatch> {
 }
 
 pub fn run(run: &mut Run) {
-    run.rule = "layouts: own-line tag comments in LF and CRLF shell files, and shell files whose end-tag comment trails the last content line. enumerated: every line sequence of length 0..k (k=4 quick, 5 thorough) over a 13-line alphabet (matching, non-matching, indented, blank, partially matching lines) x 12 anchored/unanchored patterns with hand-written predicates (5 of them can match the empty string, one is a bare zero-width assertion), plus 2 patterns with a significant blank at an edge over an 8-line alphabet of lines differing in exactly that blank; random: blocks of 5..150 lines incl. Unicode. Non-trivial block = at least 2 non-blank lines and (matching and failing lines mixed, a blank line, or a padded line); distinct by (batch, block).".into();
+    run.rule = "layouts: own-line tag comments in LF and CRLF shell files, and shell files whose end-tag comment trails the last content line. enumerated: every line sequence of length 0..k (k=4 quick, 5 thorough) over a 13-line alphabet (matching, non-matching, indented, blank, partially matching lines) x 12 anchored/unanchored patterns with hand-written predicates (5 of them can match the empty string, one is a bare zero-width assertion), plus 3 special patterns (a significant blank at an edge; `^a.b$`) over an 11-line alphabet of lines differing in exactly that blank, or holding a bare carriage return in the middle; random: blocks of 5..150 lines incl. Unicode. Non-trivial block = at least 2 non-blank lines and (matching and failing lines mixed, a blank line, or a padded line); distinct by (batch, block).".into();
     run.assumptions = vec![
         "content lines are shell/ruby words (block discovery itself is C03)".into(),
         "patterns come from a fixed family with hand-written predicates".into(),
